@@ -44,7 +44,9 @@ PROGRAMS = [
 
 def many_names(n):
     names = ['v%d' % i for i in range(n)]
-    body = 'var ' + ', '.join('%s = %d' % (x, i) for i, x in enumerate(names)) + '; return ' + ' + '.join(names) + ' + outside;'
+    # a flat argument list: a 3000-term sum would nest 3000 deep and hit Python's recursion limit in the unparser (a resource limit of
+    # the library, not a renaming question)
+    body = 'var ' + ', '.join('%s = %d' % (x, i) for i, x in enumerate(names)) + '; return use(' + ', '.join(names) + ', outside);'
     return 'function big() { %s }' % body
 
 
